@@ -1,6 +1,8 @@
 """C07 replay: instances and request histories printed by TLC (CoupledDeriv.tla) -> real gemseo MDAs.
 
-Only transport: build harness disciplines with the constant integer Jacobians of the instance, drive
+Only transport: build harness disciplines with the constant integer Jacobians of the instance (in the
+representation chosen by the specification: float64 / int64 arrays, CSR matrices, matrix-free
+operators, one per block; a discipline in residual form when the instance has one), drive
 ``MDA.linearize`` / ``JacobianAssembly.total_derivatives`` through the request history, return the
 blocks (or the exception) for comparison with the blocks computed by the specification.
 Runs in worker processes (pure function of its arguments).
@@ -24,39 +26,61 @@ def _quiet():
 _CLS = {}
 
 
+def represent(matrix, rep):
+    """The integer matrix of the specification in representation ``rep`` (RepSeq of CoupledDeriv.tla)."""
+    if rep == "dense_f64":
+        return np.array(matrix, dtype=np.float64)
+    if rep == "dense_i64":
+        return np.array(matrix, dtype=np.int64)
+    if rep in ("sparse_f64", "sparse_i64"):
+        from scipy.sparse import csr_array
+
+        return csr_array(np.array(matrix, dtype=np.float64 if rep == "sparse_f64" else np.int64))
+    if rep == "operator":
+        return _operator(np.array(matrix, dtype=np.float64))
+    raise ValueError(rep)
+
+
 def lin_class():
-    """The harness discipline: out = sum_in J[out][in] . in, constant Jacobians (dense / sparse)."""
+    """The harness discipline: out = sum_in J[out][in] . in, constant Jacobians.
+
+    With ``res = {residual: state}`` the discipline is in residual form and solves its state equation:
+    the state it returns is J[state][.] . inputs (the specification gives the Jacobian of the solved
+    state), its other outputs (the residual among them) are computed with that state."""
     if "Lin" in _CLS:
         return _CLS["Lin"]
     from gemseo.core.discipline import Discipline
 
     class Lin(Discipline):
-        def __init__(self, name, ins, outs, mats, sizes, jac_kind="dense"):
+        def __init__(self, name, ins, outs, mats, sizes, rep="dense_f64", mixed=None, res=None):
             super().__init__(name)
             self.h_ins = list(ins)
             self.h_outs = list(outs)
             self.h_mats = {o: {i: np.array(mats[o][i], dtype=float) for i in ins} for o in outs}
-            self.h_kind = jac_kind
+            self.h_rep = {o: {i: (mixed[o][i] if rep == "mixed" else rep) for i in ins} for o in outs}
+            self.h_res = dict(res or {})
             self.input_grammar.update_from_names(self.h_ins)
             self.output_grammar.update_from_names(self.h_outs)
             self.default_input_data = {n: np.zeros(sizes[n]) for n in self.h_ins}
+            if self.h_res:
+                self.io.residual_to_state_variable = dict(self.h_res)
+                self.io.state_equations_are_solved = True
 
         def _run(self, input_data):
-            return {o: sum(self.h_mats[o][i] @ input_data[i] for i in self.h_ins) for o in self.h_outs}
+            data = dict(input_data)
+            out = {}
+            for s in self.h_res.values():
+                out[s] = data[s] = sum(self.h_mats[s][i] @ input_data[i] for i in self.h_ins)
+            for o in self.h_outs:
+                if o not in out:
+                    out[o] = sum(self.h_mats[o][i] @ data[i] for i in self.h_ins)
+            return out
 
         def _compute_jacobian(self, input_names=(), output_names=()):
-            if self.h_kind == "sparse":
-                from scipy.sparse import csr_array
-
-                conv = csr_array
-            elif self.h_kind == "operator":
-                conv = _operator
-            else:
-                conv = np.array
             # only what is asked for (gemseo trims the rest anyway)
             ins = list(input_names) or self.h_ins
             outs = list(output_names) or self.h_outs
-            self.jac = {o: {i: conv(self.h_mats[o][i]) for i in ins if i in self.h_ins}
+            self.jac = {o: {i: represent(self.h_mats[o][i], self.h_rep[o][i]) for i in ins if i in self.h_ins}
                         for o in outs if o in self.h_outs}
 
     _CLS["Lin"] = Lin
@@ -73,19 +97,20 @@ def _operator(matrix):
     return op
 
 
-def build_disciplines(inst, jac_kind="dense"):
+def build_disciplines(inst, rep="dense_f64"):
     Lin = lin_class()
     out = []
     for k, d in enumerate(inst["S"]):
         ins, outs = sorted(d["ins"]), sorted(d["outs"])
-        out.append(Lin(f"D{k + 1}", ins, outs, inst["J"], inst["size"], jac_kind))
+        res = {r: s for r, s in inst.get("res", ()) if r in d["outs"]}
+        out.append(Lin(f"D{k + 1}", ins, outs, inst["J"], inst["size"], rep, inst.get("mixed"), res))
     return out
 
 
 def make_mda(inst, conf):
     from gemseo.mda.factory import MDAFactory
 
-    discs = build_disciplines(inst, conf.get("jac", "dense"))
+    discs = build_disciplines(inst, conf.get("jac", "dense_f64"))
     kw = dict(tolerance=1e-13, max_mda_iter=conf.get("max_iter", 40), linear_solver_tolerance=1e-13,
               use_lu_fact=bool(conf.get("lu", False)), linear_solver=conf.get("solver", "DEFAULT"))
     cls = conf["cls"]
@@ -134,7 +159,10 @@ def run_history(inst, hist, conf):
             mda.execute(x)
         except Exception as ex:  # noqa: BLE001
             return [{"exc": type(ex).__name__, "msg": str(ex)[:300], "tb": traceback.format_exc(limit=4), "where": "execute"}]
-        cpl = sorted(mda.coupling_structure.all_couplings)
+        # as BaseMDA._compute_jacobian calls the assembly: the residuals and the states of the
+        # residual-form disciplines are not couplings, they are given by residual_variables
+        resvars = {r: s for r, s in inst.get("res", ())}
+        cpl = sorted(set(mda.coupling_structure.all_couplings) - set(resvars) - set(resvars.values()))
     for ri, ro, mode in hist:
         # the order of the names in a request is free: sorted or reversed
         ri, ro = sorted(ri, reverse=bool(conf.get("rev"))), sorted(ro, reverse=bool(conf.get("rev")))
@@ -143,7 +171,7 @@ def run_history(inst, hist, conf):
                 j = mda.assembly.total_derivatives(
                     mda.io.data, ro, ri, cpl, linear_solver=conf.get("solver", "DEFAULT"), mode=mode,
                     matrix_type=conf.get("matrix_type", "matrix"), use_lu_fact=bool(conf.get("lu", False)),
-                    rtol=1e-13)
+                    residual_variables=resvars, rtol=1e-13)
             else:
                 mda.linearization_mode = mode
                 mda.add_differentiated_inputs(ri)
@@ -170,11 +198,13 @@ def run_history(inst, hist, conf):
 
 
 def compare_blocks(expected, got, ri, ro):
-    """expected: spec blocks {f: {x: tuple-of-tuples}}; got: {f: {x: list|None}} -> list of bad (f, x, why)."""
+    """expected: spec result {"d": denominator, "b": {f: {x: numerator block}}}; got: {f: {x: list|None}}
+    -> list of bad (f, x, why)."""
     bad = []
+    den = float(expected["d"])
     for f in sorted(ro):
         for v in sorted(ri):
-            e = np.array(expected[f][v], dtype=float)
+            e = np.array(expected["b"][f][v], dtype=float) / den
             g = got.get(f, {}).get(v)
             if g is None:
                 bad.append((f, v, "missing"))
@@ -185,6 +215,18 @@ def compare_blocks(expected, got, ri, ro):
             elif not np.all(np.isfinite(g)) or np.abs(g - e).max() > TOL:
                 bad.append((f, v, "value"))
     return bad
+
+
+def same_blocks(a, b, ri, ro):
+    """Two results of the specification are equal on the blocks (ro, ri), as rationals (integers only)."""
+    for f in ro:
+        for v in ri:
+            na, nb = a["b"][f][v], b["b"][f][v]
+            if len(na) != len(nb) or any(len(ra) != len(rb) for ra, rb in zip(na, nb)):
+                return False
+            if any(x * b["d"] != y * a["d"] for ra, rb in zip(na, nb) for x, y in zip(ra, rb)):
+                return False
+    return True
 
 
 def job(args):
